@@ -375,13 +375,20 @@ def naming(kind, n_max=20):
     if kind == "letters":
         abc = "abcdefghijklmnopqrstuvwxyz"
         return {k: (abc[k - 1] if k <= 26 else abc[(k - 1) // 26 - 1] + abc[(k - 1) % 26]) for k in range(1, n_max + 1)}
-    if kind.startswith("mixed"):
+    if kind.startswith("mixed") and kind[5:].isdigit():
         lk = int(kind[5:])
         return {k: ("z" if k == lk else str(k)) for k in range(1, n_max + 1)}
     if kind == "collide":
         return {k: 8 * (k - 1) for k in range(1, n_max + 1)}
     if kind == "big":
         return {k: 100 + k for k in range(1, n_max + 1)}
+    if kind == "mixedraw":
+        # raw ints together with a raw word: a dataset whose rankings mix python ints and strings
+        return {k: ("w" if k == 1 else k) for k in range(1, n_max + 1)}
+    if kind == "intish":
+        # strings that int() accepts but that are not plain digit strings, next to the plain ones
+        w = ["7", "+7", "1_0", "10", " 4".strip() + "_", "4", "-0", "0"]
+        return {k: w[(k - 1) % len(w)] + ("" if k <= len(w) else "x" + str(k)) for k in range(1, n_max + 1)}
     if kind == "zeropad":
         # digit strings that denote the same number; the letter keeps the dataset str-typed
         w = ["7", "07", "x", "007", "70", "0070", "y", "8", "08", "z", "9", "09"]
@@ -465,9 +472,26 @@ def build_dataset(raw, how=0, name="verif"):
     from corankco.dataset import Dataset
     from corankco.ranking import Ranking
     names = [x for r in raw for b in r for x in b]
-    textual = all((isinstance(x, int) and x >= 0) or (isinstance(x, str) and x and not any(ch in x for ch in "[]{},: \t\n'\"")
+
+    def _odd_int(x):
+        # a string that int() reads although it is not a plain digit string ("+7", "1_0", "-0"): outside the domain of
+        # the textual format (C18: names not readable as integers)
+        if not isinstance(x, str) or x.isdigit():
+            return False
+        try:
+            int(x)
+            return True
+        except ValueError:
+            return False
+    textual = not any(_odd_int(x) for x in names) and all((isinstance(x, int) and x >= 0) or (isinstance(x, str) and x and not any(ch in x for ch in "[]{},: \t\n'\"")
                                                      and x == x.strip()) for x in names)
-    how = how % 6
+    how = how % 7
+    if how == 6:
+        # buckets given as sets of Element objects (the documented element type)
+        from corankco.element import Element
+        ds = Dataset([Ranking([{Element(x) for x in b} for b in r]) for r in raw])
+        ds.name = name
+        return ds
     if how in (2, 3) and not textual:
         how = 1
     if how == 4:
@@ -556,6 +580,30 @@ def with_alarm(seconds, fn, *a, **kw):
 # --------------------------------------------------------------------------- schemes (integer units)
 def scheme_float(B, T, unit):
     return [[b / unit for b in B], [t / unit for t in T]]
+
+
+def build_scheme(B, T, unit, form=0):
+    """A ScoringScheme with penalties q / unit, built in one of the ways a user may build it:
+    0 lists of floats; 1 lists of Python ints when every penalty is integral (else floats); 2 the caller keeps the
+    lists it gave and overwrites them afterwards (the scheme must not change); 3 as  (k * s) / k-th  of the scheme,
+    i.e. through the library's own __mul__ / __rmul__ with exact dyadic factors (4 * s, then * 0.25)."""
+    from corankco.scoringscheme import ScoringScheme
+    form = form % 4
+    vec = scheme_float(B, T, unit)
+    if form == 1 and all(float(x).is_integer() for v in vec for x in v):
+        return ScoringScheme([[int(x) for x in v] for v in vec])
+    if form == 2:
+        mine = [list(vec[0]), list(vec[1])]
+        s = ScoringScheme(mine)
+        for v in mine:
+            for k in range(len(v)):
+                v[k] = 9.0
+        mine.append([1.0])
+        return s
+    if form == 3:
+        s = ScoringScheme(vec)
+        return 0.25 * (s * 4)
+    return ScoringScheme(vec)
 
 
 def to_units(x, unit):
